@@ -33,37 +33,41 @@ def gen_cases(seed, tier, n):
         c["params"] = {"numk": rng.choice([1, 1, 2, 2, 3, 4, 5, 8, 12]), "k16": rng.randint(1, 16), "mem": rng.random() < 0.5}
         if i % 3 == 1:
             tracegen.relabel_ranks(c)      # a subset of a job: rank ids are not 0..n-1, and not listed in order
+        if i % 8 == 6:
+            fw.set_quarter_us(c)           # quarter-microsecond resolution (framework.resolution)
         out.append(c)
     return out
 
 
-def _rows(df, by):
+def _rows(df, by, k=1):
     out = {}
     for rec in df.to_dict("records"):
         key = tuple(rec[b] for b in by)
-        out.setdefault(key, []).append({"name": str(rec["name"]), "sum": float(rec["sum (us)"]), "max": float(rec["max (us)"]), "min": float(rec["min (us)"]),
-                                        "mean": float(rec["mean (us)"])})
+        out.setdefault(key, []).append({"name": str(rec["name"]), "sum": float(rec["sum (us)"]) * k, "max": float(rec["max (us)"]) * k,
+                                        "min": float(rec["min (us)"]) * k, "mean": float(rec["mean (us)"]) * k})
     return out
 
 
 def run_impl(case, d):
-    ta, paths = fw.load_case(case, d)
-    sym = ta.t.symbol_table.get_sym_table()
-    ranks = sorted(ta.t.get_ranks())
-    frames = {r: fw.dump_frame(ta.t.get_trace(r), sym) for r in ranks}
-    p = case["params"]
-    out = {}
-    try:
-        tdf, kdf = ta.get_gpu_kernel_breakdown(visualize=False, duration_ratio=p["k16"] / 16.0, num_kernels=p["numk"], include_memory_kernels=p["mem"])
-        out["types"] = [[str(rec["kernel_type"]), float(rec["sum"]), float(rec["percentage"])] for rec in tdf.to_dict("records")]
-        out["kernels"] = {f"{int(k[0])}|{k[1]}": v for k, v in _rows(kdf, ["rank", "kernel_type"]).items()}
-    except Exception as e:
-        out["error"] = "get_gpu_kernel_breakdown: " + type(e).__name__ + ": " + str(e)[:200]
-    try:
-        adf = ta.get_gpu_user_annotation_breakdown(visualize=False, duration_ratio=p["k16"] / 16.0, num_kernels=p["numk"])
-        out["anno"] = None if adf is None else {str(int(k[0])): v for k, v in _rows(adf, ["rank"]).items()}
-    except Exception as e:
-        out["anno_error"] = "get_gpu_user_annotation_breakdown: " + type(e).__name__ + ": " + str(e)[:200]
+    k = fw.time_scale(case)
+    with fw.resolution(case):
+        ta, paths = fw.load_case_res(case, d)
+        sym = ta.t.symbol_table.get_sym_table()
+        ranks = sorted(ta.t.get_ranks())
+        frames = {r: fw.dump_frame_res(case, ta.t.get_trace(r), sym) for r in ranks}
+        p = case["params"]
+        out = {}
+        try:
+            tdf, kdf = ta.get_gpu_kernel_breakdown(visualize=False, duration_ratio=p["k16"] / 16.0, num_kernels=p["numk"], include_memory_kernels=p["mem"])
+            out["types"] = [[str(rec["kernel_type"]), float(rec["sum"]) * k, float(rec["percentage"])] for rec in tdf.to_dict("records")]
+            out["kernels"] = {f"{int(key[0])}|{key[1]}": v for key, v in _rows(kdf, ["rank", "kernel_type"], k).items()}
+        except Exception as e:
+            out["error"] = "get_gpu_kernel_breakdown: " + type(e).__name__ + ": " + str(e)[:200]
+        try:
+            adf = ta.get_gpu_user_annotation_breakdown(visualize=False, duration_ratio=p["k16"] / 16.0, num_kernels=p["numk"])
+            out["anno"] = None if adf is None else {str(int(key[0])): v for key, v in _rows(adf, ["rank"], k).items()}
+        except Exception as e:
+            out["anno_error"] = "get_gpu_user_annotation_breakdown: " + type(e).__name__ + ": " + str(e)[:200]
     return {"frames": frames, "out": out}
 
 
